@@ -105,6 +105,32 @@ func (s *Spec) suppliedBy(ref *Ref, pid int) (direct, viaBind, viaField []int) {
 	return
 }
 
+// WithUnreachableCycles returns a copy of a valid spec whose first injector
+// additionally lists providers that nothing reachable from the requested type
+// needs and that depend on themselves: a middleware-shaped provider
+// func(T) T and a pair func(U) V, func(V) U over fresh types. The documented
+// rules speak about the providers reachable from the requested type only, so
+// the declaration stays valid and means the same.
+func (s *Spec) WithUnreachableCycles(name string, r *rand.Rand) *Spec {
+	c := s.Clone()
+	c.Name, c.PkgName = name, name
+	t := c.addT(&Type{Kind: KStruct, Name: c.nextTypeName("LoopSelf"), Base: -1})
+	u := c.addT(&Type{Kind: KStruct, Name: c.nextTypeName("LoopLeft"), Base: -1})
+	v := c.addT(&Type{Kind: KStruct, Name: c.nextTypeName("LoopRight"), Base: -1})
+	ps := []int{
+		c.addP(&Prov{Kind: PFunc, Fn: fmt.Sprintf("WrapSelfP%d", len(c.Provs)), Params: []int{t}, Results: []int{t}}),
+		c.addP(&Prov{Kind: PFunc, Fn: fmt.Sprintf("LeftFromRightP%d", len(c.Provs)), Params: []int{v}, Results: []int{u}, Async: r.Intn(2) == 0}),
+		c.addP(&Prov{Kind: PFunc, Fn: fmt.Sprintf("RightFromLeftP%d", len(c.Provs)), Params: []int{u}, Results: []int{v}}),
+	}
+	in := c.Injectors[0]
+	for _, pid := range ps {
+		pos := r.Intn(len(in.Items) + 1)
+		in.Items = append(in.Items[:pos], append([]Item{{Prov: pid}}, in.Items[pos:]...)...)
+	}
+	c.Features = append(c.Features, "unreachable-cycles-listed")
+	return c
+}
+
 // PlantAll returns every applicable planted variant of s (injector 0).
 func (s *Spec) PlantAll(r *rand.Rand) []Planted {
 	var out []Planted
